@@ -1,6 +1,7 @@
 import XpmVerif.Model.Sched
 import XpmVerif.Generated.SchedFlags
 import XpmVerif.Proofs.SchedFinal
+import XpmVerif.Proofs.SchedLive
 /-! C06 — "Every job reaches a truthful, stable final state and the experiment exits" (safety part).
 
     All theorems are about the scheduler model `Model/Sched.lean` (tied to the Python code by the
@@ -218,20 +219,55 @@ theorem dependencies_scheduled {fl : Flags} (hg : fl.readyGuarded = true) (hf : 
     (ho : (depAt (s.jobs j) i).origin = .job o) : o < j ∧ (s.jobs o).pc ≠ .none :=
   ⟨(reachable_invS h).acyclic j i o hi ho, (reachable_invH hg hf h).oe.origSch j i o hi ho⟩
 
+/-- waiter invariant 1: while `experiment.wait()` sleeps on the condition, some job is unfinished.
+    Needs `readyGuarded`, `resubmitRegisters`. -/
+theorem waiter_sleeping_only_if_unfinished {fl : Flags} (hg : fl.readyGuarded = true)
+    (hf : fl.resubmitRegisters = true) {totals : List Nat} {s : St} (h : Reachable fl totals s)
+    (hw : s.waiter = .sleeping) : s.unfinished ≠ 0 :=
+  (reachable_invW hg hf h).sleepingBusy hw
+
+/-- waiter invariant 2: a waiter that was started or notified has its callback in the queue.
+    Needs `readyGuarded`, `resubmitRegisters`. -/
+theorem waiter_pending_has_callback {fl : Flags} (hg : fl.readyGuarded = true) (hf : fl.resubmitRegisters = true)
+    {totals : List Nat} {s : St} (h : Reachable fl totals s)
+    (hw : s.waiter = .starting ∨ s.waiter = .notified) : Cb.waiterRun ∈ s.ready :=
+  (reachable_invW hg hf h).pendingRun hw
+
+/-- "waiting on the experiment … never hanging" (deadlock form): at quiescence either nobody called `wait()` or the
+    call has completed (returned or raised).  Needs all three flags and `TokFit`. -/
+theorem quiescent_waiter_done {fl : Flags} (hg : fl.readyGuarded = true) (hf : fl.resubmitRegisters = true)
+    (ha : fl.abortRechecks = true) {totals : List Nat} {s : St} (h : Reachable fl totals s)
+    (hr : s.ready = []) (ht : s.threads = []) (hfit : TokFit s) :
+    s.waiter = .none ∨ s.waiter = .returned ∨ s.waiter = .raised :=
+  quiescent_waiter hg hf ha h hr ht hfit
+
 /-- deadlock freedom (`quiescent_all_final`): in a reachable state with an empty callback queue and no pending helper
-    thread, every scheduled job has returned, `unfinished = 0`, every token is full and nobody holds a lock —
-    provided no job asks for more units of a token than the token has (`TokFit`; such a job waits forever in the real
-    scheduler too).  Needs all three flags.  (The token part uses the capacity invariant of C08, `Proofs/SchedCap`.)
-    Not covered: termination (no livelock of aborted starts), see DESIGN `every_fair_run_finite`. -/
+    thread, every scheduled job has returned, `unfinished = 0`, every token is full, nobody holds a lock, and
+    `experiment.wait()` (if called) has completed — provided no job asks for more units of a token than the token has
+    (`TokFit`; such a job waits forever in the real scheduler too).  Needs all three flags.  (The token part uses the
+    capacity invariant of C08, `Proofs/SchedCap`.)  Not covered: termination — and it is FALSE, see
+    `aborted_starts_livelock_witness`. -/
 theorem quiescent_all_final {fl : Flags} (hg : fl.readyGuarded = true) (hf : fl.resubmitRegisters = true)
     (ha : fl.abortRechecks = true) {totals : List Nat} {s : St} (h : Reachable fl totals s)
     (hr : s.ready = []) (ht : s.threads = []) (hfit : TokFit s) :
-    AllFinal s ∧ s.unfinished = 0 ∧ (∀ t, s.avail t = s.total t) ∧ (∀ j, (s.jobs j).held = []) := by
+    AllFinal s ∧ s.unfinished = 0 ∧ (∀ t, s.avail t = s.total t) ∧ (∀ j, (s.jobs j).held = []) ∧
+    (s.waiter = .none ∨ s.waiter = .returned ∨ s.waiter = .raised) := by
   have hall := quiescent_final hg hf ha h hr ht hfit
   have hc := (reachable_invB hg hf h).count
   unfold CountC at hc
   rw [(actN_zero_iff s).2 hall] at hc
-  exact ⟨hall, by simpa using hc, (quiescent_tokens_full h hr ht).1, (quiescent_tokens_full h hr ht).2⟩
+  exact ⟨hall, by simpa using hc, (quiescent_tokens_full h hr ht).1, (quiescent_tokens_full h hr ht).2,
+    quiescent_waiter hg hf ha h hr ht hfit⟩
+
+/-- C09, deadlock form: at quiescence no job is left waiting — no job (scheduled or not) sits in `event.wait()`; so a
+    job whose token request fits is never blocked for ever by a deadlock.  Corollary of `quiescent_all_final`. -/
+theorem no_job_waits_at_quiescence {fl : Flags} (hg : fl.readyGuarded = true) (hf : fl.resubmitRegisters = true)
+    (ha : fl.abortRechecks = true) {totals : List Nat} {s : St} (h : Reachable fl totals s)
+    (hr : s.ready = []) (ht : s.threads = []) (hfit : TokFit s) (j : Nat) : (s.jobs j).pc ≠ .evtWait := by
+  intro hp
+  by_cases hj : j < s.n
+  · rcases (quiescent_all_final hg hf ha h hr ht hfit).1 j hj with e | ⟨r, e⟩ <;> rw [e] at hp <;> cases hp
+  · have := (reachable_invA hg h).blank j (by omega); rw [this] at hp; cases hp
 
 /-- `quiescent_all_final` is false without `abortRechecks` (finding F5): two jobs, one token of 1; after an aborted
     start the second job sleeps forever although the token is free. -/
@@ -244,6 +280,28 @@ theorem quiescent_hang_without_abortRechecks :
     let s := evs.foldl (St.apply fl) (St.init [1])
     (s.ready = [] ∧ s.threads = [] ∧ (s.jobs 1).pc = .evtWait ∧ (s.jobs 1).sleeping = true ∧
      (s.jobs 1).unsat = 0 ∧ s.avail 0 = 1 ∧ s.unfinished = 1 ∧ s.waiter = .sleeping) := by decide
+
+/-- `every_fair_run_finite` is FALSE, with all three repairs present (new finding, livelock of aborted starts):
+    tokens t0, t1 of one unit each; job C takes t1 and finishes; A takes [t0, t1], B takes [t1, t0].  After the prefix
+    `livelockPrefix` (16 events) A is in its aborted-start segment still holding t0 and B is about to start; the cycle
+    `livelockCycle` (13 `step`/`deliver` events, in which every queued callback runs and every helper thread is
+    delivered — a fair schedule) brings the scheduler back to exactly the same snapshot (`snap`: all job records,
+    tokens, dependents, both queues, counters, waiter), with A and B exchanged twice: each takes its first token,
+    fails on the second and releases.  Checked here for 1, 2 and 3 turns of the cycle; nobody is ever launched.
+    The state is reachable and satisfies `TokFit`.  (Replayed on the real scheduler with the harness engine: 84
+    events, no difference with the model, identical observation after each of 5 turns.) -/
+theorem aborted_starts_livelock_witness :
+    Reachable flOK [1, 1] (livelockState 0) ∧ TokFit (livelockState 0) ∧
+    snap (livelockState 1) = snap (livelockState 0) ∧ snap (livelockState 2) = snap (livelockState 0) ∧
+    snap (livelockState 3) = snap (livelockState 0) ∧
+    ((livelockState 0).jobs 0).pc = .finished .done ∧
+    ((livelockState 0).jobs 1).pc = .lockExitAbort ∧ ((livelockState 0).jobs 2).pc = .lockEnter ∧
+    ((livelockState 0).jobs 1).launches = 0 ∧ ((livelockState 0).jobs 2).launches = 0 ∧
+    (livelockState 0).threads = [] ∧ (livelockState 0).ready = [.resume 2, .resume 1] :=
+  ⟨reachable_runEvs _ (by decide), tokFit_runEvs flOK [1, 1] _ (by decide), livelock_cycle_snap.1,
+   livelock_cycle_snap.2.1, livelock_cycle_snap.2.2, livelock_cycle_facts.1, livelock_cycle_facts.2.1,
+   livelock_cycle_facts.2.2.1, livelock_cycle_facts.2.2.2.1, livelock_cycle_facts.2.2.2.2.1,
+   livelock_cycle_facts.2.2.2.2.2.1, livelock_cycle_facts.2.2.2.2.2.2.1⟩
 
 /-! Hypotheses are satisfiable: a concrete reachable state (flags all true) with a job that returned DONE after one
     launch, one that returned ERROR because its dependency failed (never launched), and a waiter that raised. -/
